@@ -238,7 +238,13 @@ func binBool(f string, a, b bool) (interface{}, error) {
 
 // applyOp evaluates the scalar function named f on typed Go values with Go's own operators and
 // maths routines (the same ones the kernels of that element type name).
+// extraOps: scalar functions contributed by operation-family files (consulted first).
+var extraOps = map[string]func(args []interface{}) (interface{}, error){}
+
 func applyOp(f string, dt *dtInfo, args []interface{}) (interface{}, error) {
+	if g, ok := extraOps[f]; ok {
+		return g(args)
+	}
 	for _, a := range args {
 		if m, ok := a.(errMark); ok {
 			return m, nil
